@@ -35,11 +35,13 @@ type Translator struct {
 // as further entries, each in its own file.
 var translators = []Translator{
 	{ID: "T3", File: "Writes.lean", What: "stores to captured or package-level variables (go/ssa)", Run: genWrites},
+	{ID: "T5", File: "MapIter.lean", What: "map iteration sites (go/ssa)", Run: genMapIter},
 }
 
 // Ctx is shared by the translators of one run; loading is done once, on demand.
 type Ctx struct {
 	Repo    string
+	Out     string // output directory (lean/Liquid/Generated)
 	Verbose bool
 	prog    *Program // lazily loaded by (*Ctx).Program
 	progErr error
@@ -70,7 +72,7 @@ func main() {
 	if err := os.MkdirAll(*out, 0o755); err != nil {
 		fatalf("%v", err)
 	}
-	c := &Ctx{Repo: abs, Verbose: *verbose}
+	c := &Ctx{Repo: abs, Out: *out, Verbose: *verbose}
 	want := map[string]bool{}
 	for _, id := range strings.Split(*only, ",") {
 		if id != "" {
